@@ -60,6 +60,7 @@ impl Engine for BigRecEngine {
             sweeper: None,
             create_empty_file: false,
             allow_ambiguous: false,
+            ring: 0,
         };
         let mut knobs = BTreeMap::new();
         knobs.insert("pairs".to_string(), pairs);
